@@ -93,6 +93,7 @@ type World struct {
 	OnTokens func(ps cashu.Proofs)
 	rotations    map[string]int
 	logPos       int
+	feePos       int
 	giver        *world.User
 }
 
@@ -668,7 +669,74 @@ func (w *World) mintStateOfSecret(secret, keysetID string) string {
 }
 
 // Invariants of C17: truthful balances, nothing counted twice, no value lost.
+// auditFees judges every swap / melt the mints have accepted since the last call: what a wallet gives up beyond the
+// outputs (and the melted amount + Lightning fee) must be exactly the mint's input fee ceil(sum ppk / 1000) — anything
+// more is value that ends up in no wallet (C17 "no value is lost ... holdings plus melted amounts plus mint fees add up").
+func (w *World) auditFees() {
+	w.R.mu.Lock()
+	log := append([]Exchange{}, w.R.Log[w.feePos:]...)
+	w.feePos = len(w.R.Log)
+	w.R.mu.Unlock()
+	for _, ex := range log {
+		if ex.Method != "POST" || ex.Status != 200 || (ex.Path != "/v1/swap" && ex.Path != "/v1/melt/bolt11") {
+			continue
+		}
+		name := strings.TrimPrefix(ex.Host, "mint-")
+		m := w.Mints[name]
+		if m == nil {
+			continue
+		}
+		feeOf := map[string]uint{}
+		for _, k := range m.M.ListKeysets().Keysets {
+			feeOf[k.Id] = k.InputFeePpk
+		}
+		var req struct {
+			Inputs  cashu.Proofs          `json:"inputs"`
+			Outputs cashu.BlindedMessages `json:"outputs"`
+		}
+		if json.Unmarshal([]byte(ex.ReqBody), &req) != nil {
+			continue
+		}
+		var in, ppk uint64
+		for _, p := range req.Inputs {
+			in += p.Amount
+			ppk += uint64(feeOf[p.Id])
+		}
+		fee := (ppk + 999) / 1000
+		if ex.Path == "/v1/swap" {
+			var out uint64
+			for _, o := range req.Outputs {
+				out += o.Amount
+			}
+			w.Outcomes["audited-swap"]++
+			if in > out+fee {
+				w.viol("C17", "swap-gives-up-more-than-the-fee", "%s swapped %d inputs worth %d at mint %s for outputs worth %d: the mint's fee for these inputs is %d, %d sat are lost", ex.Wallet, len(req.Inputs), in, name, out, fee, in-out-fee)
+			}
+			continue
+		}
+		var resp struct {
+			Amount     uint64                  `json:"amount"`
+			FeeReserve uint64                  `json:"fee_reserve"`
+			State      string                  `json:"state"`
+			Change     cashu.BlindedSignatures `json:"change"`
+		}
+		if json.Unmarshal([]byte(ex.RespBody), &resp) != nil || resp.State != "PAID" {
+			continue
+		}
+		var change uint64
+		for _, c := range resp.Change {
+			change += c.Amount
+		}
+		w.Outcomes["audited-melt"]++
+		// the Lightning model charges the whole fee reserve; internal settlements have reserve 0
+		if in > resp.Amount+resp.FeeReserve+fee+change {
+			w.viol("C17", "melt-gives-up-more-than-amount-and-fees", "%s melted %d inputs worth %d at mint %s for an invoice of %d + Lightning fee %d + input fee %d and got change %d: %d sat are lost", ex.Wallet, len(req.Inputs), in, name, resp.Amount, resp.FeeReserve, fee, change, in-resp.Amount-resp.FeeReserve-fee-change)
+		}
+	}
+}
+
 func (w *World) Invariants() {
+	w.auditFees()
 	truth := map[string]*MintTruth{}
 	ksMint := map[string]string{}
 	for _, n := range w.mintNames() {
@@ -869,3 +937,26 @@ func IsNut10(secret string) string {
 }
 
 func hexOf(b []byte) string { return hex.EncodeToString(b) }
+
+// TokenOf serialises token ti the way the recv op does (for harnesses that call the wallet API directly).
+func (w *World) TokenOf(ti int) cashu.Token { return w.tokenOf(w.Tokens[ti]) }
+
+// RegisterSent records proofs a direct Send call returned, exactly as the send op does.
+func (w *World) RegisterSent(ww *WalletW, ps cashu.Proofs, amount uint64, fees bool, kind string, to int) {
+	if kind == "plain" {
+		for _, p := range ps {
+			ww.HandedOut[p.Secret] = true
+		}
+	}
+	w.Tokens = append(w.Tokens, &Token{Proofs: copyProofs(ps), Mint: ww.Default, From: ww.Idx, Kind: kind, Fees: fees, Amount: amount, To: to})
+}
+
+// RemoveToken forgets a token that a direct Receive call redeemed.
+func (w *World) RemoveToken(t *Token) {
+	for i, x := range w.Tokens {
+		if x == t {
+			w.Tokens = append(w.Tokens[:i], w.Tokens[i+1:]...)
+			return
+		}
+	}
+}
